@@ -8,7 +8,8 @@ from ..astutil import AnalysisError, call_attr, dotted, iter_calls, kw, pattern_
 from ..facts import has_fact, path_facts
 from ..flow import backward_slice, case_index, path_calls, returned_exprs
 from ..paths import Path, env_at, resolve_name
-from ..rules import dispatch, merge, structure, triviality, typing as typing_rules
+from ..rules import dispatch, expressions, merge, mutation, structure, triviality, typing as typing_rules
+from ..rules import optional as optional_rules
 from .common import IT_ENGINE, IT_ROWS, Ctx, describe, new_run
 
 LEVEL = "other"
@@ -34,7 +35,11 @@ FIELDS = {
 }
 
 
-def _arm(ctx: Ctx, f, cname: str, subject: str = "operation") -> list[tuple[int, Path]]:
+def _arm(ctx: Ctx, f, cname: str, subject: str | None = None) -> list[tuple[int, Path]]:
+    if subject is None:
+        rel = [q for q in f.params if q != "self"][0]
+        hint = "BinaryOperationRelation" if cname in ("Chain", "Join") else "UnaryOperationRelation"
+        subject = dispatch.inner_subject(f, rel, "operation", hint)
     out = []
     for p in ctx.paths(f):
         i = case_index(p, cname, subject)
@@ -64,7 +69,7 @@ def check(model, tier):
                 sl = backward_slice(p, [p.value], start=i, control=True)
                 caps = pattern_captures(p.steps[i].node.pattern)  # type: ignore[union-attr]
                 capname = next((n for n, a in caps.items() if a == (fld,)), None)
-                used = sl.reads("operation", fld) if capname is None else any(isinstance(n, ast.Name) and n.id == capname for e in sl.exprs for n in ast.walk(e))
+                used = sl.reads(dispatch.inner_subject(ex, rel, "operation", "UnaryOperationRelation"), fld) if capname is None else any(isinstance(n, ast.Name) and n.id == capname for e in sl.exprs for n in ast.walk(e))
                 if not used:
                     ok = False
             if ok:
@@ -184,19 +189,31 @@ def check(model, tier):
                 run.fail("R01.4", inst + ":skip", "the slice iterable skips a row although n >= start", fi=it, details=describe(p))
     if not (yields and stops):
         raise AnalysisError("SliceRowIterable.__iter__ has no yielding or no stopping path")
+    def _calc_shape(e, rv):
+        if not isinstance(e, ast.Dict):
+            return False
+        keys = [src(k) if k is not None else None for k in e.keys]
+        vals = [src(v) for v in e.values]
+        if None not in keys or "self.tag" not in keys:
+            return False
+        return vals[keys.index(None)] == rv and vals[keys.index("self.tag")] == f"self.callable({rv})" and keys.index(None) < keys.index("self.tag") and len(keys) == 2
+
+    def _proj_shape(e, rv):
+        return isinstance(e, ast.DictComp) and src(e.generators[0].iter) == "self.columns" and src(e.key) == src(e.generators[0].target) and src(e.value) == f"{rv}[{src(e.key)}]" and not e.generators[0].ifs
+
     for cname, check_fn, what in (
-        ("CalculationRowIterable", lambda e: isinstance(e, ast.Dict) and any(k is None and src(v) == "row" for k, v in zip(e.keys, e.values)) and any(k is not None and src(k) == "self.tag" and src(v) == "self.callable(row)" for k, v in zip(e.keys, e.values)) and [src(k) if k is not None else None for k in e.keys].index(None) < [src(k) if k is not None else None for k in e.keys].index("self.tag"), "{**row, self.tag: self.callable(row)}"),
-        ("ProjectionRowIterable", lambda e: isinstance(e, ast.DictComp) and src(e.generators[0].iter) == "self.columns" and src(e.key) == src(e.generators[0].target) and src(e.value) == f"row[{src(e.key)}]" and not e.generators[0].ifs, "{k: row[k] for k in self.columns}"),
+        ("CalculationRowIterable", _calc_shape, "{**row, self.tag: self.callable(row)}"),
+        ("ProjectionRowIterable", _proj_shape, "{k: row[k] for k in self.columns}"),
     ):
         itf = ctx.cls(IT_ROWS, cname).methods["__iter__"]
         gens = [n for n in ast.walk(itf.node) if isinstance(n, ast.GeneratorExp) and src(n.generators[0].iter) == "self.target"]
-        if gens and check_fn(gens[0].elt) and not gens[0].generators[0].ifs:
+        if gens and check_fn(gens[0].elt, src(gens[0].generators[0].target)) and not gens[0].generators[0].ifs:
             run.ok("R01.4", f"{cname}:row-shape")
         else:
             run.fail("R01.4", f"{cname}:row-shape", f"{cname} does not produce {what} for every target row", fi=itf)
     itf = ctx.cls(IT_ROWS, "SelectionRowIterable").methods["__iter__"]
     gens = [n for n in ast.walk(itf.node) if isinstance(n, ast.GeneratorExp) and src(n.generators[0].iter) == "self.target"]
-    if gens and src(gens[0].elt) == src(gens[0].generators[0].target) and [src(c) for c in gens[0].generators[0].ifs] == ["self.callable(row)"]:
+    if gens and src(gens[0].elt) == src(gens[0].generators[0].target) and [src(c) for c in gens[0].generators[0].ifs] == [f"self.callable({src(gens[0].generators[0].target)})"]:
         run.ok("R01.4", "SelectionRowIterable:row-shape")
     else:
         run.fail("R01.4", "SelectionRowIterable:row-shape", "SelectionRowIterable does not keep exactly the rows for which the predicate callable is true", fi=itf)
@@ -329,6 +346,9 @@ def check(model, tier):
     triviality.r05_2_noop_predicates_agree(ctx, rule="R01.8")
     merge.r05_4_then(ctx, rule="R01.9")
     structure.r06_1_flags(ctx, rule="R01.10")
+    expressions.r13_1_as_trivial(ctx, rule="R01.13")
+    mutation.r09_4_no_shared_mutation(ctx)
     typing_rules.r08_5_slice_subscripts(ctx, rule="R01.11")
+    optional_rules.r_optional_truthiness(ctx, "R01.12", None, ("iteration/", "_operations/", "_relation.py", "_unary_operation.py"))
     run.assume("max_rows == 0 / is_join_identity short-circuits rely on truthful bounds (C06)")
     return run
